@@ -111,6 +111,41 @@ def make_source(R, rng, d, i, force_kind=None):
     return out, info, acc, kind
 
 
+def make_source_direct(R, rng, d, i):
+    """A source dataset written WITHOUT the package (raw chunks, flat layout, no gzip, info as JSON),
+    so that it is complete whatever the package's writer does; with an object on a zero background."""
+    out = os.path.join(d, "src")
+    dt = rng.choice(NG)
+    nch = rng.choice([1, 1, 2])
+    scales = []
+    size = [rng.randrange(4, 21) for _ in range(3)]
+    levels = {}
+    for k in range(rng.choice([1, 2])):
+        cs = [rng.choice([2, 4, 8]) for _ in range(3)]
+        sz = [max(1, -(-x // 2 ** k)) for x in size]
+        key = f"{2 ** k}mm"
+        scales.append({"key": key, "size": sz, "chunk_sizes": [cs], "encoding": "raw",
+                       "resolution": [10 ** 6 * 2 ** k] * 3, "voxel_offset": [0, 0, 0]})
+        if dt == "float32":
+            a = np.array([rng.uniform(1, 300) for _ in range(nch * sz[0] * sz[1] * sz[2])], dtype=dt)
+        else:
+            hi = min(int(np.iinfo(dt).max), 2 ** 52)
+            a = np.array([1 + rng.randrange(hi) for _ in range(nch * sz[0] * sz[1] * sz[2])], dtype=dt)
+        a = a.reshape(nch, sz[2], sz[1], sz[0])
+        a[:, sz[2] // 2:, :, :] = 0            # half of the volume is background
+        levels[key] = a
+        os.makedirs(os.path.join(out, key))
+        for cc in pipeline.chunk_grid(sz, cs):
+            x0, x1, y0, y1, z0, z1 = cc
+            with open(os.path.join(out, key, f"{x0}-{x1}_{y0}-{y1}_{z0}-{z1}"), "wb") as f:
+                f.write(np.ascontiguousarray(a[:, z0:z1, y0:y1, x0:x1]).astype(np.dtype(dt).newbyteorder("<")).tobytes())
+    info = {"type": "image", "data_type": dt, "num_channels": nch, "scales": scales}
+    with open(os.path.join(out, "info"), "w") as f:
+        json.dump(info, f)
+    R.count("source:written-directly(zero background)")
+    return out, info, {"flat": True, "gzip": False}, "flat", levels
+
+
 def api_sequence(R, rng):
     """Several conversions through the library API in ONE process with the default options: state must
     not leak from one call to the next (a sharded --copy-info conversion followed by an unsharded one)."""
@@ -163,6 +198,11 @@ def run(R):
     for i in range(n):
         d = os.path.join(R.tmp, f"c{i}")
         os.makedirs(d)
+        if i % 3 == 2:
+            src_dir, info, src_acc, src_kind, src_scales = make_source_direct(R, rng, d, i)
+            for j in range(2):
+                _convert(R, rng, d, j, src_dir, info, src_acc, src_kind, src_scales)
+            continue
         src = make_source(R, rng, d, i)
         if src is None:
             R.case({"source": "failed"})
